@@ -247,7 +247,8 @@ def run(ctx):
     ctx.rule = ("objects built by construction from the frozen specification model (every type of 2.0/2.1, drawn/minimal/maximal optional "
                 "subsets repaired against the co-constraints, vocabulary entries, legal reference targets, boundary numbers, falsy values, "
                 "0-9 fraction digits, granular markings addressing any path), presented alone / in a bundle / as observed-data container "
-                "members, as dict or JSON text. Non-trivial = carries a falsy value, >3 fraction digits, integer > 2^53, exponent-form "
+                "members, as dict or JSON text; up to 3 cases per (version, type) are re-run in fresh processes in four orders (as generated, "
+                "reversed, all 2.0 first, all 2.1 first). Non-trivial = carries a falsy value, >3 fraction digits, integer > 2^53, exponent-form "
                 "float, granular markings, extensions or a container; distinct = distinct (document, wrapper).")
     ctx.assumptions = ["specmodel/v20.json, v21.json: hand-audited transcription of the STIX 2.0/2.1 property tables (specmodel/AUDIT.md)",
                        "generated documents are pre-checked by oracle/validator.py; a rejected one aborts the run (exit 2)"]
@@ -260,6 +261,7 @@ def run(ctx):
         fails = check_case(case)
         cl = classes_of(case)
         ctx.note(case, bool(set(cl) & NT), cl)
+        ctx.keep(case, (case["ver"], case["doc"].get("type") if case["wrap"] != "container" else "container", case["wrap"] == "bundle"), per_group=3)
         ctx.handle(case, fails)
 
     # real documents shipped with the repository (test data, SCO example bundle): fixed seeds, each first passed through the
@@ -291,6 +293,9 @@ def run(ctx):
         ctx.collect_only = False
 
     core.run_given(ctx, case_strategy(), body, ctx.n(2500, 12000), label="c03-main")
+    # acceptance must not depend on what the process handled before (class-level tables, caches): the same cases again in
+    # fresh processes, in four orders
+    core.order_probe(ctx)
 
 
 def replay(case):
